@@ -69,4 +69,10 @@ CHECKS = {
         'note': 'Assumed: pool/event/pickle contracts (listed in evidence). Bounded cross-check: scripted pool exploring pull/run/deliver interleavings with stale flag views on 5 inputs x 6 commands.',
         'technique': 'contract-based deductive verification: loop invariants + ghost chain state on the real code, z3; native scripted-pool harness as bounded stand-in',
     },
+    'C06': {
+        'category': 'proof',
+        'text': 'The real write_smtlib_to_file/write_smtlib are interpreted over a ghost file system in which every effect (open-truncate, each write, replace, unlink) is a possible crash / observation point: discharged for the three output modes that the content visible under the output path is the old content or the complete rendering after every effect, that the final content is the rendering, that the input file is untouched and only a sibling temporary in the same directory is used and none is left behind. __main__.main\'s KeyboardInterrupt/MemoryError handlers perform no file-system effect; static obligations: no os._exit in the sources, the TemporaryDirectory object is owned by a module global assigned only in init(), no new open(...,\'w\') site. With C01/C05 (old content is an accepted input from the first write on) this gives the property. Native stand-in: KeyboardInterrupt injected at every low-level write, and a concurrent reader during 200 rewrites.',
+        'note': 'Assumed: POSIX atomic rename within a directory, TemporaryDirectory finaliser at interpreter exit, unbuffered visibility model (stronger than reality), signals inside multiprocessing internals leave no child writing the output file (workers never write it). The rendering uses one concrete input of two commands: the protocol does not depend on the content.',
+        'technique': 'contract-based deductive verification: crash-point invariant over a ghost file-system model of the real function, z3/structural; native interrupt injection as bounded stand-in',
+    },
 }
